@@ -114,6 +114,7 @@ func poolMapAccesses(p *an.Prog, fields ...string) []mapAccess {
 }
 
 func runC09(p *an.Prog, r *an.Run, tier string) {
+	checkSurfaceClosed(p, r)
 	closeFn := p.Method("pool", "VipnodePool", "CloseRemote")
 	conn := p.Method("pool", "VipnodePool", "connect")
 	if closeFn == nil || conn == nil {
